@@ -88,6 +88,7 @@ from pytato.transform import (
     ArrayOrNames,
     CombineMapper,
     CopyMapper,
+    SubsetDependencyMapper,
     TransformMapperCache,
     _verify_is_array,
 )
@@ -326,6 +327,21 @@ class _PartCommIDs:
     """
     recv_ids: FrozenOrderedSet[CommunicationOpIdentifier]
     send_ids: FrozenOrderedSet[CommunicationOpIdentifier]
+
+
+# {{{ _ValueDependencyMapper
+
+class _ValueDependencyMapper(SubsetDependencyMapper):
+    """Like :class:`~pytato.transform.SubsetDependencyMapper`, but follows the
+    *value* of a :class:`DistributedSendRefHolder` (its passthrough data) only:
+    what the held send transmits is not needed to compute arrays that depend on
+    the holder.
+    """
+    def map_distributed_send_ref_holder(
+            self, expr: DistributedSendRefHolder) -> frozenset[Array]:
+        return self.rec(expr.passthrough_data)
+
+# }}}
 
 
 # {{{ _make_distributed_partition
@@ -702,7 +718,6 @@ def find_distributed_partition(
     """
     from mpi4py import MPI
 
-    from pytato.transform import SubsetDependencyMapper
     from pytato.transform.dead_code_elimination import eliminate_dead_code
 
     # Eliminate dead-code to prevent from unnecessary communication arising
@@ -833,7 +848,7 @@ def find_distributed_partition(
 
     # FIXME: This gathers up materialized_arrays recursively, leading to
     # result sizes potentially quadratic in the number of materialized arrays.
-    mso_array_dep_mapper = SubsetDependencyMapper(frozenset(mso_arrays))
+    mso_array_dep_mapper = _ValueDependencyMapper(frozenset(mso_arrays))
 
     mso_ary_to_first_dep_send_part_id: dict[Array, int] = \
         dict.fromkeys(mso_arrays, nparts)
@@ -844,7 +859,7 @@ def find_distributed_partition(
                 comm_id_to_part_id[send_id])
 
     if __debug__:
-        recvd_array_dep_mapper = SubsetDependencyMapper(frozenset(received_arrays))
+        recvd_array_dep_mapper = _ValueDependencyMapper(frozenset(received_arrays))
 
         mso_ary_to_last_dep_recv_part_id: dict[Array, int] = {
                 ary: max(
